@@ -52,6 +52,10 @@ void vm_thread_1(void) {
   own_pop(); own_pop();
 #elif defined(PROG_PUSH_POP)
   own_push(INIT + 1); own_pop(); own_pop();
+#elif defined(PROG_PUSH3)
+  /* with INIT=2 in a 2-slot array: grows 2->4 at the first push and 4->8 at the third (two array generations retired while a
+     thief may still hold the first one) */
+  own_push(INIT + 1); own_push(INIT + 2); own_push(INIT + 3);
 #elif defined(PROG_PUSH2_POP)
   own_push(INIT + 1); own_push(INIT + 2); own_pop();
 #else
@@ -72,6 +76,8 @@ void vm_thread_3(void) { thief(); }
 
 #if defined(PROG_POP2)
 #define NPUSHED (INIT)
+#elif defined(PROG_PUSH3)
+#define NPUSHED (INIT + 3)
 #elif defined(PROG_PUSH2_POP)
 #define NPUSHED (INIT + 2)
 #else
